@@ -714,6 +714,91 @@ fn file_and_writer(mode: ModeK) -> Result<(), Fail> {
     Ok(())
 }
 
+/// stdout is the primary output, two FileLogWriters are additional writers (one direct, one
+/// buffered): W W to both, both files renamed, reopen_output(), W W, shutdown.
+fn stdout_primary() -> Result<(), Fail> {
+    let env = Env::new("c18o");
+    env.enter();
+    let sc = crate::scratch::Scratch::new("c18oc");
+    let cap = crate::capture::FdCapture::start(1, sc.path().join("o.txt"));
+    let mk = |name: &str, mode: flexi_logger::WriteMode| {
+        flexi_logger::writers::FileLogWriter::builder(flexi_logger::FileSpec::default().directory(env.dir.join(name)).basename(name).suppress_timestamp())
+            .format(lg::payload_format)
+            .write_mode(mode)
+            .try_build()
+    };
+    let build = || -> Result<_, String> {
+        let x = mk("x", flexi_logger::WriteMode::Direct).map_err(|e| e.to_string())?;
+        let y = mk("y", flexi_logger::WriteMode::BufferDontFlushWith(64)).map_err(|e| e.to_string())?;
+        flexi_logger::Logger::with(flexi_logger::LogSpecification::trace())
+            .log_to_stdout()
+            .format(lg::payload_format)
+            .add_writer("X", Box::new(x))
+            .add_writer("Y", Box::new(y))
+            .error_channel(flexi_logger::ErrorChannel::File(env.err.clone()))
+            .build()
+            .map_err(|e| e.to_string())
+    };
+    let (logger, handle) = match build() {
+        Ok(x) => x,
+        Err(e) => {
+            if let Some(c) = cap {
+                c.finish();
+            }
+            return Err(Fail {
+                clause: "build-error",
+                at: 0,
+                detail: e,
+            });
+        }
+    };
+    let msgs: Vec<String> = (0..4).map(|i| lg::payload(0, i, 8)).collect();
+    let w = |i: usize| lg::log_to(&*logger, log::Level::Info, "{X,Y}", &msgs[i]);
+    w(0);
+    w(1);
+    let files: Vec<(PathBuf, PathBuf)> = ["x", "y"].iter().map(|n| (env.dir.join(n).join(format!("{n}.log")), env.dir.join(n).join(format!("{n}.moved")))).collect();
+    let mut renamed = true;
+    for (p, moved) in &files {
+        renamed &= std::fs::rename(p, moved).is_ok();
+    }
+    let r = handle.reopen_output();
+    w(2);
+    w(3);
+    handle.shutdown();
+    drop(logger);
+    drop(handle);
+    if let Some(c) = cap {
+        c.finish();
+    }
+    env.leave();
+    if !renamed {
+        return Err(Fail {
+            clause: "machinery",
+            at: 2,
+            detail: "rename failed".into(),
+        });
+    }
+    if let Err(e) = r {
+        return Err(Fail {
+            clause: "reopen-error",
+            at: 3,
+            detail: e.to_string(),
+        });
+    }
+    for (i, (p, moved)) in files.iter().enumerate() {
+        let old = String::from_utf8_lossy(&std::fs::read(moved).unwrap_or_default()).to_string();
+        let new = String::from_utf8_lossy(&std::fs::read(p).unwrap_or_default()).to_string();
+        if old != format!("{}\n{}\n", msgs[0], msgs[1]) || new != format!("{}\n{}\n", msgs[2], msgs[3]) {
+            return Err(Fail {
+                clause: "file-content!=model",
+                at: 5,
+                detail: format!("log_to_stdout with two additional FileLogWriters, W W [both files renamed] reopen_output W W: writer {}: renamed file holds {old:?}, the file at the original path {new:?}", ["X (direct)", "Y (buffered)"][i]),
+            });
+        }
+    }
+    Ok(())
+}
+
 /// The path of the log file is a symbolic link (to a file in another directory): W W, the link is
 /// renamed externally, reopen_output(), W W, shutdown - the first two records are in the file the
 /// link points to, the last two in a new regular file at the original path.
@@ -778,6 +863,16 @@ fn symlinked_file(mode: ModeK) -> Result<(), Fail> {
 }
 
 fn run_unit(tier: &str, unit: usize, out: &mut Out) {
+    if unit == 0 {
+        out.evaluations += 1;
+        let case = json!({"stdout_primary": true});
+        match run_isolated(Duration::from_secs(30), stdout_primary) {
+            Ran::Done(Ok(())) => {}
+            Ran::Done(Err(f)) => out.violation(Violation::new(f.clause, "Reopen/stdout-primary+file-writers".to_string(), f.detail, case)),
+            Ran::Panicked(m) => out.violation(Violation::new("panic", "stdout-primary", m, case)),
+            Ran::Hung => out.violation(Violation::new("hang", "stdout-primary", String::new(), case)),
+        }
+    }
     if unit < modes().len() {
         let mode = modes()[unit];
         out.evaluations += 1;
@@ -839,6 +934,15 @@ fn run_unit(tier: &str, unit: usize, out: &mut Out) {
 }
 
 fn replay(case: &Value) -> Vec<Violation> {
+    if case["stdout_primary"].as_bool() == Some(true) {
+        println!("replay C18: stdout as primary output, two additional FileLogWriters");
+        return match run_isolated(Duration::from_secs(30), stdout_primary) {
+            Ran::Done(Ok(())) => vec![],
+            Ran::Done(Err(f)) => vec![Violation::new(f.clause, "Reopen/stdout-primary+file-writers".to_string(), f.detail, case.clone())],
+            Ran::Panicked(m) => vec![Violation::new("panic", "stdout-primary", m, case.clone())],
+            Ran::Hung => vec![Violation::new("hang", "stdout-primary", String::new(), case.clone())],
+        };
+    }
     if let Some(u) = case["symlinked_file"].as_u64() {
         let mode = modes()[(u as usize).min(modes().len() - 1)];
         println!("replay C18: the log file path is a symbolic link, mode {mode:?}");
